@@ -217,8 +217,8 @@ Lemma fine_skip_blank st : fine st (skip_blank st).
 Proof. apply fine_set_s. apply take_while_len. Qed.
 Lemma fine_accept c st st' : accept c st = Some st' -> fine st st' /\ (slen st' < slen st)%nat.
 Proof.
-  unfold accept, slen. destruct (cs_s st) as [|x r] eqn:E; [discriminate|]. destruct (x =? c); [|discriminate].
-  intros H. inversion H; subst. cbn. rewrite E. cbn. split; [split; [reflexivity|cbn; rewrite E; cbn; lia]|lia].
+  unfold accept, fine, slen. destruct (cs_s st) as [|x r] eqn:E; [discriminate|]. destruct (x =? c); [|discriminate].
+  intros H. inversion H; subst. cbn [set_s cs_s cs_depth Datatypes.length]. repeat split; lia.
 Qed.
 Lemma fine_skip_bc st : fine st (skip_blank_and_comma st).
 Proof.
@@ -261,36 +261,268 @@ Lemma next_item_facts fin st : cs_depth st = D ->
   let '(it, fin', st') := next_item elem fin st in
   fine st st' /\
   match it with
-  | Some r => r <> Err EOutOfFuel /\ (fin' = false -> (slen st' < slen st)%nat)
-  | None => True
+  | Some r => r <> Err EOutOfFuel /\ fin = false /\ (fin' = false -> (slen st' < slen st)%nat)
+  | None => fin' = true
   end.
 Proof.
-  intros HD. unfold next_item. destruct fin; [split; [apply fine_refl|exact I]|].
+  intros HD. unfold next_item. destruct fin; [split; [apply fine_refl|reflexivity]|].
   pose proof (fine_skip_bc st) as F1.
-  destruct (at_eof (skip_blank_and_comma st)) eqn:Ee; [split; [exact F1|split; [discriminate|discriminate]]|].
+  destruct (at_eof (skip_blank_and_comma st)) eqn:Ee; [split; [exact F1|repeat split; discriminate]|].
   destruct (accept RPAR (skip_blank_and_comma st)) as [st2|] eqn:E.
-  - apply fine_accept in E as [F2 _]. split; [eapply fine_trans; eassumption|exact I].
+  - apply fine_accept in E as [F2 _]. split; [eapply fine_trans; eassumption|reflexivity].
   - destruct (Helem (skip_blank_and_comma st)) as (N1 & F2 & P); [destruct F1; congruence|].
     destruct (elem (skip_blank_and_comma st)) as [r st2] eqn:Ee2. cbn [fst snd] in *.
-    split; [eapply fine_trans; eassumption|]. split; [exact N1|].
+    split; [eapply fine_trans; eassumption|]. split; [exact N1|]. split; [reflexivity|].
     intros Hf. destruct r as [t|e]; [|discriminate].
     specialize (P t eq_refl (at_eof_slen _ Ee)). destruct F1 as [_ L1]. lia.
 Qed.
 
 Lemma take_k_facts k : forall fin st, cs_depth st = D ->
   let '(items, fin', st') := take_k k elem fin st in
-  fine st st' /\ Forall (fun r => r <> Err EOutOfFuel) items /\
+  fine st st' /\ Forall (fun r => r <> Err EOutOfFuel) items /\ (List.length items <= k)%nat /\
   ((List.length items < k)%nat -> fin' = true).
 Proof.
-  induction k as [|k IH]; intros fin st HD; cbn [take_k]; [split; [apply fine_refl|split; [constructor|lia]]|].
+  induction k as [|k IH]; intros fin st HD; cbn [take_k];
+    [split; [apply fine_refl|split; [constructor|split; [cbn; lia|cbn; lia]]]|].
   pose proof (next_item_facts fin st HD) as NI.
   destruct (next_item elem fin st) as [[[x|] fin1] st1]; destruct NI as (F1 & R).
   - specialize (IH fin1 st1 ltac:(destruct F1; congruence)).
-    destruct (take_k k elem fin1 st1) as [[l fin2] st2]. destruct IH as (F2 & A & B).
+    destruct (take_k k elem fin1 st1) as [[l fin2] st2]. destruct IH as (F2 & A & B & C).
     split; [eapply fine_trans; eassumption|]. split; [constructor; [apply R|exact A]|].
-    cbn [Datatypes.length]. intros H. apply B. lia.
-  - split; [exact F1|]. split; [constructor|]. intros _.
-    (* the iterator ended: its flag is set *)
-    unfold next_item in *. revert F1 R. clear. intros. exact eq_refl || idtac.
-Abort.
+    cbn [Datatypes.length]. split; [lia|]. intros H. apply C. lia.
+  - split; [exact F1|]. split; [constructor|]. split; [cbn; lia|]. intros _. exact R.
+Qed.
+
+Lemma count_rest_facts lf : forall fin st, cs_depth st = D ->
+  ((fin = true /\ (1 <= lf)%nat) \/ (slen st + 2 <= lf)%nat) ->
+  let '(r, st') := count_rest lf elem fin st in r <> None /\ fine st st' /\ (fin = true -> r = Some 0).
+Proof.
+  induction lf as [|f IH]; intros fin st HD HF; [lia|]. cbn [count_rest].
+  pose proof (next_item_facts fin st HD) as NI.
+  destruct (next_item elem fin st) as [[[x|] fin1] st1]; destruct NI as (F1 & R).
+  - destruct R as (_ & Hfin & P). subst fin.
+    specialize (IH fin1 st1 ltac:(destruct F1; congruence)).
+    assert (HF' : (fin1 = true /\ (1 <= f)%nat) \/ (slen st1 + 2 <= f)%nat).
+    { destruct HF as [[X _]|HF]; [discriminate|]. destruct fin1; [left; split; [reflexivity|lia]|].
+      right. specialize (P eq_refl). lia. }
+    specialize (IH HF'). destruct (count_rest f elem fin1 st1) as [[n|] st2]; destruct IH as (A & B & _).
+    + split; [discriminate|split; [eapply fine_trans; eassumption|discriminate]].
+    + congruence.
+  - split; [discriminate|split; [exact F1|reflexivity]].
+Qed.
+
+Lemma get_n_facts n st : cs_depth st = D ->
+  let '(r, st') := get_n n elem st in
+  fine st st' /\
+  match r with
+  | Ok items => List.length items = n /\ Forall (fun r => r <> Err EOutOfFuel) items
+  | Err e => e <> EOutOfFuel
+  end.
+Proof.
+  intros HD. unfold get_n. destruct (at_eof st); [split; [apply fine_refl|discriminate]|].
+  destruct (accept LPAR st) as [st1|] eqn:E; [|split; [apply fine_refl|discriminate]].
+  apply fine_accept in E as [F1 L1].
+  pose proof (take_k_facts n false st1 ltac:(destruct F1; congruence)) as TK.
+  destruct (take_k n elem false st1) as [[items fin] st2]. destruct TK as (F2 & A & B & C).
+  pose proof (count_rest_facts (loop_fuel st2) fin st2 ltac:(destruct F1, F2; congruence)
+                               ltac:(right; unfold loop_fuel, slen; lia)) as CR.
+  destruct (count_rest (loop_fuel st2) elem fin st2) as [[extra|] st3]; destruct CR as (NN & F3 & Z); [|congruence].
+  assert (F : fine st st3) by (eapply fine_trans; [exact F1|eapply fine_trans; eassumption]).
+  destruct (lenN items + extra =? N.of_nat n) eqn:Eq; (split; [exact F|]); [|discriminate].
+  apply N.eqb_eq in Eq. unfold lenN in Eq. split; [|exact A].
+  destruct (Nat.eq_dec (Datatypes.length items) n) as [E1|E1]; [exact E1|].
+  specialize (Z (C ltac:(lia))). inversion Z; subst. lia.
+Qed.
+
+Lemma collect_all_facts lf : forall fin st, cs_depth st = D ->
+  ((fin = true /\ (1 <= lf)%nat) \/ (slen st + 2 <= lf)%nat) ->
+  noof_c (collect_all lf elem fin st) /\ fine st (snd (collect_all lf elem fin st)).
+Proof.
+  induction lf as [|f IH]; intros fin st HD HF; [lia|]. cbn [collect_all].
+  pose proof (next_item_facts fin st HD) as NI.
+  destruct (next_item elem fin st) as [[[[t|e]|] fin1] st1]; destruct NI as (F1 & R).
+  - destruct R as (_ & Hfin & P). subst fin.
+    specialize (IH fin1 st1 ltac:(destruct F1; congruence)).
+    assert (HF' : (fin1 = true /\ (1 <= f)%nat) \/ (slen st1 + 2 <= f)%nat).
+    { destruct HF as [[X _]|HF]; [discriminate|]. destruct fin1; [left; split; [reflexivity|lia]|].
+      right. specialize (P eq_refl). lia. }
+    specialize (IH HF'). unfold noof_c in *. destruct (collect_all f elem fin1 st1) as [[l|e] st2]; cbn [fst snd] in *;
+      destruct IH as [A B]; (split; [congruence || discriminate|eapply fine_trans; eassumption]).
+  - destruct R as (Ne & _). unfold noof_c. cbn [fst snd]. split; [congruence|exact F1].
+  - unfold noof_c. cbn [fst snd]. split; [discriminate|exact F1].
+Qed.
+
+Lemma tuple_params_facts st : cs_depth st = D ->
+  noof_c (tuple_params elem st) /\ fine st (snd (tuple_params elem st)).
+Proof.
+  intros HD. unfold tuple_params, noof_c. destruct (at_eof st); [split; [discriminate|apply fine_refl]|].
+  destruct (accept LPAR st) as [st1|] eqn:E; [|split; [discriminate|apply fine_refl]].
+  apply fine_accept in E as [F1 L1].
+  pose proof (collect_all_facts (loop_fuel st1) false st1 ltac:(destruct F1; congruence)
+                                ltac:(right; unfold loop_fuel, slen; lia)) as [A B].
+  unfold noof_c in A. destruct (collect_all (loop_fuel st1) elem false st1) as [[[|t l]|e] st2]; cbn [fst snd] in *;
+    (split; [congruence || discriminate|eapply fine_trans; eassumption]).
+Qed.
+
+Lemma vector_params_facts st : cs_depth st = D ->
+  noof_c (vector_params elem st) /\ fine st (snd (vector_params elem st)).
+Proof.
+  intros HD. unfold vector_params, noof_c. destruct (accept LPAR st) as [st1|] eqn:E; [|split; [discriminate|apply fine_refl]].
+  apply fine_accept in E as [F1 _]. pose proof (fine_skip_bc st1) as F2.
+  assert (F12 : fine st (skip_blank_and_comma st1)) by (eapply fine_trans; eassumption).
+  destruct (accept RPAR (skip_blank_and_comma st1)); [split; [discriminate|exact F12]|].
+  destruct (Helem (skip_blank_and_comma st1)) as (N1 & F3 & _); [destruct F12; congruence|].
+  unfold noof_c in N1. destruct (elem (skip_blank_and_comma st1)) as [[t|e] st3]; cbn [fst snd] in *.
+  2:{ split; [congruence|eapply fine_trans; eassumption]. }
+  assert (F13 : fine st st3) by (eapply fine_trans; eassumption).
+  pose proof (fine_skip_bc st3) as F4. assert (F14 : fine st (skip_blank_and_comma st3)) by (eapply fine_trans; eassumption).
+  destruct (parse_u16 (skip_blank_and_comma st3)) as [[n st5]|] eqn:E5; [|split; [discriminate|exact F14]].
+  apply fine_parse_u16 in E5. assert (F15 : fine st st5) by (eapply fine_trans; eassumption).
+  destruct (accept RPAR st5) as [st6|] eqn:E6; [|split; [discriminate|exact F15]].
+  apply fine_accept in E6 as [F6 _]. split; [discriminate|eapply fine_trans; eassumption].
+Qed.
+
+Lemma udt_fields_facts lf : forall st, cs_depth st = D -> (slen st + 1 <= lf)%nat ->
+  noof_c (udt_fields lf elem st) /\ fine st (snd (udt_fields lf elem st)).
+Proof.
+  induction lf as [|f IH]; intros st HD HF; [lia|]. cbn [udt_fields]. unfold noof_c.
+  pose proof (fine_skip_bc st) as F1.
+  destruct (at_eof (skip_blank_and_comma st)); [split; [discriminate|exact F1]|].
+  destruct (accept RPAR (skip_blank_and_comma st)) as [st2|] eqn:E2.
+  { apply fine_accept in E2 as [F2 _]. split; [discriminate|eapply fine_trans; eassumption]. }
+  pose proof (fine_read_ident (skip_blank_and_comma st)) as F2.
+  destruct (read_ident (skip_blank_and_comma st)) as [id st2]. cbn [snd] in F2.
+  assert (F12 : fine st st2) by (eapply fine_trans; eassumption).
+  destruct (from_hex id) as [nm|]; [|split; [discriminate|exact F12]].
+  destruct (negb (utf8_valid nm)); [split; [discriminate|exact F12]|].
+  destruct (accept COLON st2) as [st3|] eqn:E3; [|split; [discriminate|exact F12]].
+  apply fine_accept in E3 as [F3 L3]. assert (F13 : fine st st3) by (eapply fine_trans; eassumption).
+  destruct (Helem st3) as (N1 & F4 & _); [destruct F13; congruence|].
+  unfold noof_c in N1. destruct (elem st3) as [[t|e] st4]; cbn [fst snd] in *.
+  2:{ split; [congruence|eapply fine_trans; eassumption]. }
+  assert (F14 : fine st st4) by (eapply fine_trans; eassumption).
+  specialize (IH st4 ltac:(destruct F14; congruence) ltac:(destruct F12, F4; lia)). unfold noof_c in IH.
+  destruct (udt_fields f elem st4) as [[l|e] st5]; cbn [fst snd] in *; destruct IH as [A B];
+    (split; [congruence || discriminate|eapply fine_trans; eassumption]).
+Qed.
+
+Lemma udt_params_facts st : cs_depth st = D ->
+  noof_c (udt_params elem st) /\ fine st (snd (udt_params elem st)).
+Proof.
+  intros HD. unfold udt_params, noof_c. destruct (accept LPAR st) as [st1|] eqn:E; [|split; [discriminate|apply fine_refl]].
+  apply fine_accept in E as [F1 _]. pose proof (fine_skip_bc st1) as F2.
+  pose proof (fine_read_ident (skip_blank_and_comma st1)) as F3.
+  destruct (read_ident (skip_blank_and_comma st1)) as [ks st3]. cbn [snd] in F3.
+  pose proof (fine_skip_bc st3) as F4.
+  pose proof (fine_read_ident (skip_blank_and_comma st3)) as F5.
+  destruct (read_ident (skip_blank_and_comma st3)) as [hx st5]. cbn [snd] in F5.
+  assert (F15 : fine st st5).
+  { eapply fine_trans; [exact F1|]. eapply fine_trans; [exact F2|]. eapply fine_trans; [exact F3|].
+    eapply fine_trans; eassumption. }
+  destruct (from_hex hx) as [nm|]; [|split; [discriminate|exact F15]].
+  destruct (negb (utf8_valid nm)); [split; [discriminate|exact F15]|].
+  pose proof (udt_fields_facts (loop_fuel st5) st5 ltac:(destruct F15; congruence) ltac:(unfold loop_fuel, slen; lia)) as [A B].
+  unfold noof_c in A. destruct (udt_fields (loop_fuel st5) elem st5) as [[fs|e] st6]; cbn [fst snd] in *;
+    (split; [congruence || discriminate|eapply fine_trans; eassumption]).
+Qed.
+
+Lemma complex_type_facts name st : cs_depth st = D ->
+  noof_c (complex_type elem name st) /\ fine st (snd (complex_type elem name st)).
+Proof.
+  intros HD. unfold complex_type, noof_c.
+  destruct (is_str (strip_marshal name) "ListType"%string || is_str (strip_marshal name) "SetType"%string).
+  { pose proof (get_n_facts 1 st HD) as G. destruct (get_n 1 elem st) as [[items|e] st1]; destruct G as [F G]; cbn [fst snd].
+    - destruct G as [L A]. destruct items as [|x [|y l]]; try (cbn in L; lia).
+      inversion A as [|? ? Ax _]; subst. destruct x as [t|e]; cbn [fst snd]; (split; [congruence || discriminate|exact F]).
+    - split; [congruence|exact F]. }
+  destruct (is_str (strip_marshal name) "MapType"%string).
+  { pose proof (get_n_facts 2 st HD) as G. destruct (get_n 2 elem st) as [[items|e] st1]; destruct G as [F G]; cbn [fst snd].
+    - destruct G as [L A]. destruct items as [|x [|y [|z l]]]; try (cbn in L; lia).
+      inversion A as [|? ? Ax A2]; subst. inversion A2 as [|? ? Ay _]; subst.
+      destruct x as [k|e]; [destruct y as [v|e]|]; cbn [fst snd]; (split; [congruence || discriminate|exact F]).
+    - split; [congruence|exact F]. }
+  destruct (is_str (strip_marshal name) "TupleType"%string).
+  { pose proof (tuple_params_facts st HD) as [A B]. unfold noof_c in A.
+    destruct (tuple_params elem st) as [[l|e] st1]; cbn [fst snd] in *; (split; [congruence || discriminate|exact B]). }
+  destruct (is_str (strip_marshal name) "VectorType"%string).
+  { pose proof (vector_params_facts st HD) as [A B]. unfold noof_c in A.
+    destruct (vector_params elem st) as [[[t d]|e] st1]; cbn [fst snd] in *; (split; [congruence || discriminate|exact B]). }
+  destruct (is_str (strip_marshal name) "UserType"%string).
+  { pose proof (udt_params_facts st HD) as [A B]. unfold noof_c in A.
+    destruct (udt_params elem st) as [[[[ks nm] fs]|e] st1]; cbn [fst snd] in *; (split; [congruence || discriminate|exact B]). }
+  destruct (is_str (strip_marshal name) "FrozenType"%string); [|split; [discriminate|apply fine_refl]].
+  pose proof (get_n_facts 1 (set_frozen st true) HD) as G.
+  destruct (get_n 1 elem (set_frozen st true)) as [[items|e] st1]; destruct G as [F G]; cbn [fst snd].
+  - destruct G as [L A]. destruct items as [|x [|y l]]; try (cbn in L; lia).
+    inversion A as [|? ? Ax _]; subst. cbn [fst snd]. split; [exact Ax|exact F].
+  - split; [congruence|exact F].
+Qed.
+
+Lemma do_parse_nested_facts st : cs_depth st = D ->
+  noof_c (do_parse_nested elem st) /\ fine st (snd (do_parse_nested elem st)) /\
+  (forall t, fst (do_parse_nested elem st) = Ok t -> cs_s st <> [] -> (slen (snd (do_parse_nested elem st)) < slen st)%nat).
+Proof.
+  intros HD. unfold do_parse_nested, noof_c.
+  pose proof (fine_skip_blank st) as F1. pose proof (fine_read_ident (skip_blank st)) as F2.
+  pose proof (read_ident_nonempty (skip_blank st)) as NE.
+  destruct (read_ident (skip_blank st)) as [name st2]. cbn [fst snd] in *.
+  assert (F12 : fine st st2) by (eapply fine_trans; eassumption).
+  destruct name as [|c name].
+  { destruct (at_eof st2) eqn:Ee; cbn [fst snd]; (split; [discriminate|split; [exact F12|]]); [|discriminate].
+    intros t _ Hne. unfold at_eof in Ee. unfold slen. destruct (cs_s st2); [|discriminate].
+    destruct (cs_s st); [congruence|cbn; lia]. }
+  specialize (NE ltac:(discriminate)).
+  assert (G : forall nm st3, fine st2 st3 ->
+            let x := match accept LPAR (skip_blank st3) with
+                     | Some _ => complex_type elem nm (skip_blank st3)
+                     | None => match simple_type nm with
+                               | Some nt => (Ok (TNative nt), skip_blank st3)
+                               | None => (Err ECtUnknownSimple, skip_blank st3)
+                               end
+                     end in
+            fst x <> Err EOutOfFuel /\ fine st2 (snd x)).
+  { intros nm st3 F3. pose proof (fine_skip_blank st3) as F4.
+    assert (F24 : fine st2 (skip_blank st3)) by (eapply fine_trans; eassumption).
+    destruct (accept LPAR (skip_blank st3)).
+    - destruct (complex_type_facts nm (skip_blank st3)) as [A B]; [destruct F12, F24; congruence|].
+      split; [exact A|eapply fine_trans; eassumption].
+    - destruct (simple_type nm); cbn [fst snd]; (split; [discriminate|exact F24]). }
+  assert (L2 : (slen st2 < slen st)%nat) by (destruct F1; lia).
+  destruct (accept COLON st2) as [st3|] eqn:E3.
+  - apply fine_accept in E3 as [F3 _].
+    destruct (usize_hex_ok (c :: name)); cbn [fst snd].
+    2:{ split; [discriminate|]. split; [eapply fine_trans; eassumption|]. discriminate. }
+    pose proof (fine_read_ident st3) as F4. destruct (read_ident st3) as [name2 st4]. cbn [snd] in F4.
+    destruct (G name2 st4 ltac:(eapply fine_trans; eassumption)) as [A B]. cbv zeta in A, B.
+    split; [exact A|]. split; [eapply fine_trans; eassumption|]. intros t _ _. destruct B as [_ LB]. lia.
+  - destruct (G (c :: name) st2 (fine_refl st2)) as [A B]. cbv zeta in A, B.
+    split; [exact A|]. split; [eapply fine_trans; eassumption|]. intros t _ _. destruct B as [_ LB]. lia.
+Qed.
 End ElemFuel.
+
+Lemma do_parse_facts : forall fuel d,
+  (130 <= N.to_nat d + fuel)%nat -> (1 <= fuel)%nat ->
+  forall st, cs_depth st = d ->
+  noof_c (do_parse fuel st) /\ fine st (snd (do_parse fuel st)) /\
+  (forall t, fst (do_parse fuel st) = Ok t -> cs_s st <> [] -> (slen (snd (do_parse fuel st)) < slen st)%nat).
+Proof.
+  induction fuel as [|f IH]; intros d H1 H2 st HD; [lia|]. cbn [do_parse]. unfold noof_c.
+  destruct (MAX_CUSTOM_TYPE_NESTING_DEPTH <=? cs_depth st) eqn:E.
+  { cbn [fst snd]. split; [discriminate|]. split; [apply fine_refl|discriminate]. }
+  apply N.leb_gt in E. unfold MAX_CUSTOM_TYPE_NESTING_DEPTH in E.
+  set (st1 := mkCst (cs_s st) (cs_frozen st) (cs_depth st + 1) (N.max (cs_maxd st) (cs_depth st + 1))).
+  pose proof (do_parse_nested_facts (do_parse f) (d + 1) (IH (d + 1) ltac:(lia) ltac:(lia)) st1
+                                    ltac:(cbn; congruence)) as (A & B & C).
+  unfold noof_c in A. destruct (do_parse_nested (do_parse f) st1) as [r st2]. cbn [fst snd] in *.
+  split; [exact A|]. destruct B as [BD BL]. split.
+  - split; [cbn; cbn in BD; lia|exact BL].
+  - intros t Ht Hne. specialize (C t Ht Hne). exact C.
+Qed.
+
+Lemma parse_custom_noof s : fst (parse_custom s) <> Err EOutOfFuel.
+Proof.
+  unfold parse_custom. destruct (forallb (fun c => c <? 128) s); [|discriminate].
+  pose proof (do_parse_facts CUSTOM_FUEL 0 ltac:(unfold CUSTOM_FUEL; lia) ltac:(unfold CUSTOM_FUEL; lia)
+                             (mkCst s false 0 0) eq_refl) as (A & _).
+  unfold noof_c in A. destruct (do_parse CUSTOM_FUEL (mkCst s false 0 0)) as [r st]. exact A.
+Qed.
